@@ -36,6 +36,9 @@ pub fn run(_args: &[String]) -> i32 {
         // account names that are textual prefixes of one another (a parent with its own postings, a sub-account, a sibling):
         // an account's register lists that account's postings only
         "2024/01/01 open\n    Assets:Bank    100.00 X\n    Assets:Bank2    40.00 X\n    Equity\n\n2024/01/20 move\n    Assets:Bank:Savings    25.00 X\n    Assets:Bank    -25.00 X\n\n2024/02/01 food\n    Expenses:Food    12.50 X\n    Assets:Bank2    -12.50 X\n\n2024/02/01 fx\n    Assets    3 Y\n    Assets:Bank:Savings    -1.00 X\n\n",
+        // transactions written `DATE=EFFECTIVE_DATE`: the window is decided by the transaction's (primary) date, the one the register
+        // lists it under, whichever side of a boundary the effective date falls on (seed C04-k)
+        "2024/01/30=2024/02/02 card\n    Expenses:Food    45.50 X\n    Liabilities:Card\n\n2024/02/03=2024/01/28 back-valued\n    Expenses:Fees    2.00 X\n    Liabilities:Card\n\n2024/01/31 plain\n    Expenses:Food    4.50 X\n    Liabilities:Card\n\n",
     ];
     let mut bad: Vec<(String, String)> = Vec::new();
     let mut evaluated = 0u64;
